@@ -242,83 +242,83 @@ theorem noBreak_cons {c : Char} {s : Str} (hc : isLineBreak c = false) (hs : NoB
 
 theorem noBreak_nil : NoBreak [] := by intro c hc; cases hc
 
-theorem noBreak_wireDirs (cs : List Name) (h : ∀ c ∈ cs, NoBreak c) : NoBreak (wireDirs cs) := by
-  induction cs with
-  | nil => exact noBreak_nil
-  | cons c r ih =>
-    simp only [wireDirs, List.flatMap_cons]
-    exact noBreak_append (noBreak_cons (by decide) (h c (by simp))) (ih (fun x hx => h x (by simp [hx])))
+/-- a text without the character `x` -/
+theorem not_mem_wireDirs (x : Char) (hx : x ≠ '/') (cs : List Name) (h : ∀ c ∈ cs, x ∉ c) : x ∉ wireDirs cs := by
+  simp only [wireDirs, List.mem_flatMap, not_exists, not_and]
+  intro c hc hm
+  rcases List.mem_cons.1 hm with h' | h'
+  · exact hx h'
+  · exact h c hc h'
 
-theorem noBreak_wirePath (cs : List Name) (h : ∀ c ∈ cs, NoBreak c) : NoBreak (wirePath cs) := by
+theorem not_mem_wirePath (x : Char) (hx : x ≠ '/') (cs : List Name) (h : ∀ c ∈ cs, x ∉ c) : x ∉ wirePath cs := by
   cases cs with
-  | nil => unfold NoBreak; decide
-  | cons c r => exact noBreak_wireDirs _ h
+  | nil => simpa [wirePath] using hx
+  | cons c r => exact not_mem_wireDirs x hx _ h
 
-theorem noBreak_digits (s : Str) (h : ∀ c ∈ s, isDigit c = true) : NoBreak s := by
-  intro c hc
-  have := h c hc
-  simp only [isDigit, Bool.and_eq_true, decide_eq_true_eq] at this
-  simp only [isLineBreak, Bool.or_eq_false_iff, beq_eq_false_iff_ne, ne_eq]
-  omega
-
-theorem noBreak_renderMlsd (facts : List (Str × Str)) (text : Str) (hf : ∀ kv ∈ facts, NoBreak kv.1 ∧ NoBreak kv.2)
-    (ht : NoBreak text) : NoBreak (renderMlsd facts text) := by
+theorem not_mem_renderMlsd (x : Char) (h1 : x ≠ '=') (h2 : x ≠ ';') (h3 : x ≠ ' ') (facts : List (Str × Str)) (text : Str)
+    (hf : ∀ kv ∈ facts, x ∉ kv.1 ∧ x ∉ kv.2) (ht : x ∉ text) : x ∉ renderMlsd facts text := by
   unfold renderMlsd
-  refine noBreak_append ?_ (noBreak_cons (by decide) ht)
-  induction facts with
-  | nil => exact noBreak_nil
-  | cons kv rest ih =>
-    simp only [List.flatMap_cons]
-    refine noBreak_append ?_ (ih (fun x hx => hf x (by simp [hx])))
-    exact noBreak_append (noBreak_append (hf kv (by simp)).1 (noBreak_cons (by decide) (hf kv (by simp)).2))
-      (noBreak_cons (by decide) noBreak_nil)
+  intro hm
+  rcases List.mem_append.1 hm with h | h
+  · obtain ⟨kv, hkv, hx⟩ := List.mem_flatMap.1 h
+    rcases List.mem_append.1 hx with h' | h'
+    · rcases List.mem_append.1 h' with h'' | h''
+      · exact (hf kv hkv).1 h''
+      · rcases List.mem_cons.1 h'' with e | e
+        · exact h1 e
+        · exact (hf kv hkv).2 e
+    · simp only [List.mem_singleton] at h'; exact h2 h'
+  · rcases List.mem_cons.1 h with e | e
+    · exact h3 e
+    · exact ht e
 
-theorem entryFacts_noBreak (cfg : Profile) (hcf : Conforming cfg) (name : Name) (n : Node) :
-    ∀ kv ∈ entryFacts cfg name n, NoBreak kv.1 ∧ NoBreak kv.2 := by
+theorem entryFacts_noNl (cfg : Profile) (hcf : Conforming cfg) (name : Name) (n : Node) :
+    ∀ kv ∈ entryFacts cfg name n, '\n' ∉ kv.1 ∧ '\n' ∉ kv.2 := by
   intro kv hkv
   simp only [entryFacts, List.mem_cons] at hkv
   rcases hkv with rfl | rfl | h
   · cases n.isDir
-    · exact ⟨show NoBreak kType by unfold NoBreak; decide, show NoBreak kFile by unfold NoBreak; decide⟩
-    · exact ⟨show NoBreak kType by unfold NoBreak; decide, show NoBreak kDir by unfold NoBreak; decide⟩
-  · exact ⟨show NoBreak kSize by unfold NoBreak; decide, noBreak_digits _ (decimal_digits _)⟩
+    · exact ⟨show '\n' ∉ kType by decide, show '\n' ∉ kFile by decide⟩
+    · exact ⟨show '\n' ∉ kType by decide, show '\n' ∉ kDir by decide⟩
+  · exact ⟨show '\n' ∉ kSize by decide, digits_not_mem _ (decimal_digits _) '\n' (by decide)⟩
   · exact hcf.facts_line name n kv h
 
-/-- the three lines of an `MLST` reply as `str.splitlines()` cuts them — provided nothing in the path breaks
-    a line -/
-theorem splitlines_mlst (cfg : Profile) (hcf : Conforming cfg) (p : List Name) (n : Node)
-    (hp : ∀ c ∈ p, NoBreak c) :
-    ((splitlines (mlstText cfg p n)).drop 1).dropLast =
+/-- the three lines of an `MLST` reply as `response.split("\n")` cuts them (79535c4) — for EVERY path whose
+    components contain no line feed -/
+theorem split_mlst (cfg : Profile) (hcf : Conforming cfg) (p : List Name) (n : Node)
+    (hp : ∀ c ∈ p, '\n' ∉ c) :
+    ((splitOn '\n' (mlstText cfg p n)).drop 1).dropLast =
       [' ' :: renderMlsd (entryFacts cfg (p.getLast?.getD []) n) (wirePath p)] := by
-  have h1 : NoBreak ("250-Listing \"".toList ++ wirePath p ++ "\":".toList) :=
-    noBreak_append (noBreak_append (by unfold NoBreak; decide) (noBreak_wirePath p hp)) (by unfold NoBreak; decide)
-  have h2 : NoBreak (' ' :: renderMlsd (entryFacts cfg (p.getLast?.getD []) n) (wirePath p)) :=
-    noBreak_cons (by decide) (noBreak_renderMlsd _ _ (entryFacts_noBreak cfg hcf _ n) (noBreak_wirePath p hp))
-  have h3 : NoBreak "250 End MLST.".toList := by unfold NoBreak; decide
-  unfold mlstText splitlines
-  rw [List.append_assoc, List.cons_append, go_line [] _ _ h1, go_line [] _ _ h2, go_last [] _ h3 (by decide)]
+  have hwire : '\n' ∉ wirePath p := not_mem_wirePath _ (by decide) p hp
+  have h1 : '\n' ∉ "250-Listing \"".toList ++ wirePath p ++ "\":".toList := by
+    simp only [List.mem_append, not_or]
+    exact ⟨⟨by decide, hwire⟩, by decide⟩
+  have h2 : '\n' ∉ ' ' :: renderMlsd (entryFacts cfg (p.getLast?.getD []) n) (wirePath p) := by
+    simp only [List.mem_cons, not_or]
+    exact ⟨by decide, not_mem_renderMlsd _ (by decide) (by decide) (by decide) _ _ (entryFacts_noNl cfg hcf _ n) hwire⟩
+  unfold mlstText
+  rw [List.append_assoc, List.cons_append, PathLemmas.splitOn_append_sep _ _ _ h1,
+    PathLemmas.splitOn_append_sep _ _ _ h2, PathLemmas.splitOn_of_not_mem _ _ (by decide)]
   simp
 
 /-- LISTING ROUND TRIP (MLST): the reply for the node at `p` is read as the entry named like the last
-    component of `p`, with the node's type and size -/
+    component of `p`, with the node's type and size — for every path without CR / LF -/
 theorem mlst_reply (cfg : Profile) (hcf : Conforming cfg) (p : List Name) (n : Node) (hne : p ≠ [])
-    (hcl : ∀ c ∈ p, cleanName c = true) (hp : ∀ c ∈ p, NoBreak c) (hsz : StatesSize cfg n) :
-    ∃ i, parseMlsx (((splitlines (mlstText cfg p n)).drop 1).dropLast) = .ok [i] ∧
+    (hcl : ∀ c ∈ p, cleanName c = true) (hp : ∀ c ∈ p, NoCrLf c) (hsz : StatesSize cfg n) :
+    ∃ i, parseMlsx (((splitOn '\n' (mlstText cfg p n)).drop 1).dropLast) = .ok [i] ∧
       (i.name, i.isDir, i.size) = (p.getLast?.getD [], n.isDir, sizeOf cfg n) := by
-  rw [splitlines_mlst cfg hcf p n hp]
+  rw [split_mlst cfg hcf p n (fun c hc => (hp c hc).2)]
   have heol : rstripEol (wirePath p) = wirePath p := by
     apply rstripEol_noEol
     intro c r hcr
     have hm : c ∈ wirePath p := by
       have : c ∈ (wirePath p).reverse := by rw [hcr]; simp
       simpa using this
-    have := noBreak_wirePath p hp c hm
-    revert this
-    simp only [isLineBreak, isEol, Bool.or_eq_false_iff, beq_eq_false_iff_ne, ne_eq]
-    intro h
-    constructor
-    · rintro rfl; exact h.1.1.1.1.1.1.2 (by decide)
-    · rintro rfl; exact h.1.1.1.1.1.1.1.1.1 (by decide)
+    have hr : c ≠ '\r' := by
+      rintro rfl; exact not_mem_wirePath _ (by decide) p (fun x hx => (hp x hx).1) hm
+    have hn : c ≠ '\n' := by
+      rintro rfl; exact not_mem_wirePath _ (by decide) p (fun x hx => (hp x hx).2) hm
+    simp [isEol, hr, hn]
   obtain ⟨mo, cr, hl⟩ := entry_line cfg hcf (wirePath p) (p.getLast?.getD []) (p.getLast?.getD []) n hsz
     (by rw [heol, pathName_wire p hne hcl])
   refine ⟨⟨p.getLast?.getD [], n.isDir, parsedFacts cfg (p.getLast?.getD []) n, sizeOf cfg n, mo, cr⟩, ?_, rfl⟩
